@@ -499,7 +499,7 @@ func main() {
 	r.Set("cycle_runs", res.Counts["cycle_runs"])
 	r.Set("unresolvable_runs", res.Counts["unresolvable_runs"])
 	r.Set("exhaustive", true)
-	r.Set("rule", "F1: entry package at depth 1-3 x 5 import paths (with repeated elements) x every subset of the candidate places (each enclosing vendor directory, GOPATH/src); F2: transitive import from a package located at each place, b in every subset of the places seen from there; F3: chain, diamonds, fan-in, duplicate import, self/2/3-cycles, cycle through the entry package; F4: relative imports with decoys; x 3 entry modes (Eval import, EvalPath dir, EvalPath file) x disk and MapFS; states = distinct expected initialisation logs")
+	r.Set("rule", "F1: entry package at depth 1-3 x 5 import paths (with repeated elements) x every subset of the candidate places (each enclosing vendor directory, GOPATH/src); F2: transitive import from a package located at each place, b in every subset of the places seen from there; F3: chain, diamonds, fan-in, duplicate import, self/2/3-cycles, cycle through the entry package; F4: relative imports with decoys; x 3 entry modes (Eval import, EvalPath dir, EvalPath file) x disk and MapFS; retry histories on the F3 trees: the last package broken in 4 ways (missing, regular file in place of its directory, no Go files, parse error), the import fails, the package is put in place and the same interpreter imports again, on both filesystems; states = distinct expected initialisation logs")
 	r.Assumptions = []string{"reference model: nearest enclosing vendor directory containing the path, else GOPATH/src/<path>; relative imports against the importing file's directory; every package initialised exactly once, imports first; a cycle or a missing package is an error"}
 	for _, i := range []int{0, len(runs) / 2, len(runs) - 1} {
 		r.Sample(map[string]interface{}{"tree": runs[i].T.Name, "entry": runs[i].Entry, "fs": runs[i].FS, "packages": runs[i].T.Pkgs})
